@@ -12,7 +12,7 @@ CONSTANTS
   MaxObj = 2
   GenMode = "menu"
   MaxLen = 3
-  MenuN = 14
+  MenuN = 15
   SelSeed = 1
   SelMod = 12
 SPECIFICATION GSpec
